@@ -23,8 +23,8 @@ pub struct CCfg {
 impl CCfg {
     pub fn n_extra(&self) -> usize { self.extra.0 + self.extra.1 + self.extra.2 as usize }
     pub fn coq(&self) -> String {
-        c_tuple(&[c_str(&self.calling), c_opt(self.called.as_ref().map(|s| c_str(s))),
-            c_list(self.pcs.iter().map(|(a, t)| c_pair(&c_str(a), &c_list(t.iter().map(|x| c_str(x)))))),
+        c_tuple(&[cs(&self.calling), c_opt(self.called.as_ref().map(|s| cs(s))),
+            c_list(self.pcs.iter().map(|(a, t)| c_pair(&cs(a), &c_list(t.iter().map(|x| cs(x)))))),
             c_n(self.max_pdu), format!("{}%nat", self.n_extra())])
     }
     pub fn json(&self) -> Value {
@@ -42,7 +42,7 @@ impl CCfg {
     }
 }
 
-fn c_pcn(p: &PcN) -> String { format!("Build_pc_negotiated {} {} {} {}", p.0, p.1, c_str(&p.2), c_str(&p.3)) }
+fn c_pcn(p: &PcN) -> String { format!("Build_pc_negotiated {} {} {} {}", p.0, p.1, cs(&p.2), cs(&p.3)) }
 /// transport-level trouble (read/write failure, connection closed, invalid local maximum): one class
 fn norm_err(e: u8) -> u8 { if matches!(e, 9 | 10 | 12 | 13) { 20 } else { e } }
 
@@ -56,7 +56,7 @@ fn through_wire(p: &Pdu) -> Option<Pdu> {
 type ClientOut = Result<(Vec<PcN>, u32, String), u8>;
 fn c_client_out(o: &ClientOut) -> String {
     match o {
-        Ok((pcs, m, t)) => c_ok(&c_tuple(&[c_list(pcs.iter().map(c_pcn)), c_n(*m), c_str(t)])),
+        Ok((pcs, m, t)) => c_ok(&c_tuple(&[c_list(pcs.iter().map(c_pcn)), c_n(*m), cs(t)])),
         Err(e) => c_err(*e as u32),
     }
 }
@@ -132,13 +132,13 @@ fn case_compose(bucket: &str, cc: &CCfg, sc: &SCfg, ae: Option<&str>) -> Case {
     let oracle = oracle_compose(cc, sc, &r);
     let obs = match &r {
         Ok(Some(c)) => c_ok(&c_tuple(&[
-            c_list(c.proposed.iter().map(|p| format!("Build_pc_proposed {} {} {}", p.id, c_str(&p.abs), c_list(p.ts.iter().map(|t| c_str(t)))))),
+            c_list(c.proposed.iter().map(|p| format!("Build_pc_proposed {} {} {}", p.id, cs(&p.abs), c_list(p.ts.iter().map(|t| cs(t)))))),
             c.rq.coq(), c.server.coq(), c_client_out(&c.client)])),
         Ok(None) => String::new(),
         Err(e) => c_err(*e as u32),
     };
     let coq = if obs.is_empty() { String::new() } else {
-        format!("(CCompose {} {} {} {})", cc.coq(), sc.coq(), c_opt(ae.map(|s| c_str(s))), obs)
+        format!("(CCompose {} {} {} {})", cc.coq(), sc.coq(), c_opt(ae.map(|s| cs(s))), obs)
     };
     let desc = json!({"bucket": bucket, "client": cc.json(), "server": sc.json(), "ae": ae,
         "observed": match &r { Ok(Some(c)) => json!({"ids": c.proposed.iter().map(|p| p.id).collect::<Vec<_>>(), "server": c.server.json(), "client": format!("{:?}", c.client)}), Ok(None) => json!("not encodable"), Err(e) => json!({"create_error": e}) }});
@@ -212,17 +212,39 @@ fn oracle_pair(cc: &CCfg, s: &TcpSide, c: &TcpSide) -> Oracle {
 fn case_pair(bucket: &str, cc: &CCfg, sc: &SCfg, ae: Option<&str>) -> Option<Case> {
     let (s, c) = run_pair(cc, sc, ae)?;
     let oracle = oracle_pair(cc, &s, &c);
-    let coq = format!("(CTcp {} {} {} {} {})", cc.coq(), sc.coq(), c_opt(ae.map(|x| c_str(x))), c_side(&s), c_side(&c));
+    let coq = format!("(CTcp {} {} {} {} {})", cc.coq(), sc.coq(), c_opt(ae.map(|x| cs(x))), c_side(&s), c_side(&c));
     let desc = json!({"bucket": bucket, "client": cc.json(), "server": sc.json(), "ae": ae, "acceptor": format!("{:?}", s), "requestor": format!("{:?}", c)});
     Some(Case { key: format!("tcp|{}|{}|{:?}", cc.coq(), sc.coq(), ae), coq, desc, oracle })
 }
 
 // ------------------------------------------------------------------ C. send-size limit, observed on the wire by the recording proxy
-fn pdata(n: usize) -> Pdu { Pdu::PData { data: vec![PDataValue { presentation_context_id: 1, value_type: PDataValueType::Data, is_last: true, data: vec![0x5a; n] }] } }
 fn encoded_len(p: &Pdu) -> usize { let mut b = vec![]; write_pdu(&mut b, p).map(|_| b.len()).unwrap_or(0) }
 
-/// `from_client`: which side sends. Returns the case.
-fn case_send(r: &mut Rng, cmax: u32, smax: u32, from_client: bool, use_pdata_writer: bool) -> Option<Case> {
+/// A P-DATA-TF PDU with `nv` values (mixed command/data) whose encoded size is exactly `total` bytes:
+/// 6 bytes of PDU header + per value 6 bytes of PDV header + data.
+fn pdata_total(r: &mut Rng, nv: usize, total: usize) -> Pdu {
+    let payload = total.saturating_sub(6 + 6 * nv);
+    // split the payload into nv parts
+    let mut cuts: Vec<usize> = (0..nv - 1).map(|_| r.below(payload as u64 + 1) as usize).collect();
+    cuts.sort();
+    let mut parts = vec![];
+    let mut prev = 0;
+    for c in cuts { parts.push(c - prev); prev = c; }
+    parts.push(payload - prev);
+    Pdu::PData { data: parts.into_iter().enumerate().map(|(i, n)| PDataValue {
+        presentation_context_id: 1,
+        value_type: if (i + nv) % 2 == 0 { PDataValueType::Command } else { PDataValueType::Data },
+        is_last: i % 2 == 0,
+        data: vec![0x5a; n],
+    }).collect() }
+}
+
+type SendLog = Vec<(usize, Result<(), u8>)>;
+
+/// One association through the recording proxy; one side (`from_client`) sends the PDUs with its
+/// sync or async (`async_sender`) implementation of `send`, the other side receives.
+fn case_send(r: &mut Rng, cmax: u32, smax: u32, from_client: bool, async_sender: bool, use_pdata_writer: bool) -> Option<Case> {
+    use dicom_ul::association::AsyncAssociation;
     use std::io::Write;
     let listener = TcpListener::bind("127.0.0.1:0").ok()?;
     let saddr = listener.local_addr().ok()?;
@@ -230,61 +252,92 @@ fn case_send(r: &mut Rng, cmax: u32, smax: u32, from_client: bool, use_pdata_wri
     let paddr = px.addr;
     let sc = SCfg { access_called: false, ae_title: "THIS-SCP".into(), abs: vec![A1.into()], ts: vec![], max_pdu: smax, promiscuous: false };
     let cc = CCfg { calling: "SCU".into(), called: None, pcs: vec![(A1.into(), vec![ILE.into()])], max_pdu: cmax, extra: (0, 0, false), strict: false };
-    // the list of payload sizes around the limit of the receiving side
+    // PDUs sized around the limit of the receiving side: 1 to 4 values each; with nv values the sizes
+    // peer_max + 6 + delta for delta in 0 ..= 6*(nv-1)+1 are exactly where an estimate that forgets the
+    // headers of the extra values goes wrong
     let peer_max = if from_client { smax } else { cmax } as i64;
-    let mut sizes: Vec<usize> = vec![];
-    for _ in 0..r.range(3, 7) {
-        let delta: i64 = *r.pick(&[-3i64, -2, -1, 0, 0, 1, 1, 2, 7, 1000, -1000, 70000]);
-        // one PDV: encoded length = 6 + 6 + data
-        let total = (peer_max + 6 + delta).max(13);
-        sizes.push((total - 12) as usize);
+    let mut pdus: Vec<Pdu> = vec![];
+    let mut shape: Vec<(usize, i64)> = vec![];
+    for _ in 0..r.range(4, 8) {
+        let nv = *r.pick(&[1usize, 1, 2, 2, 3, 4]);
+        let delta: i64 = match r.below(10) {
+            0..=5 => r.range(0, 6 * (nv as u64 - 1) + 1) as i64,
+            6 => -(r.range(1, 13) as i64),
+            7 => 6 * (nv as i64 - 1) + 2 + r.below(8) as i64,
+            8 => *r.pick(&[1000i64, -1000]),
+            _ => 70000,
+        };
+        let total = (peer_max + 6 + delta).max((6 + 6 * nv + nv) as i64) as usize;
+        pdus.push(pdata_total(r, nv, total));
+        shape.push((nv, delta));
     }
-    if use_pdata_writer { sizes = vec![r.range(1, 3 * peer_max as u64 + 50) as usize]; }
-    let sizes2 = sizes.clone();
-    let script = move |send: &mut dyn FnMut(&Pdu) -> Result<(), u8>| -> Vec<(usize, Result<(), u8>)> {
-        sizes2.iter().map(|n| { let p = pdata(*n); (encoded_len(&p), send(&p)) }).collect()
-    };
+    let writer_len = r.range(1, 3 * peer_max as u64 + 50) as usize;
+    let (pd_s, pd_c) = (pdus.clone(), pdus.clone());
     let sc2 = sc.clone();
-    let from_client2 = from_client;
-    let sizes3 = sizes.clone();
-    let server = std::thread::spawn(move || -> Option<(u32, Vec<(usize, Result<(), u8>)>)> {
-        let (stream, _) = listener.accept().ok()?;
-        let mut a = base_opts(&sc2).strict(false).establish(stream).ok()?;
-        let peer = a.requestor_max_pdu_length();
-        let res = if !from_client2 {
-            let res = if use_pdata_writer {
-                let mut w = a.send_pdata(1);
-                let r1 = w.write_all(&vec![7u8; sizes3[0]]).and_then(|_| w.finish());
-                vec![(sizes3[0], r1.map_err(|_| 50u8))]
-            } else { script(&mut |p| a.send(p).map_err(|e| err_class(&e))) };
-            let _ = a.abort();
-            res
+    let server = std::thread::spawn(move || -> Option<(u32, SendLog)> {
+        if async_sender && !from_client {
+            // asynchronous acceptor sends
+            let rt = tokio::runtime::Builder::new_current_thread().enable_all().build().ok()?;
+            listener.set_nonblocking(true).ok()?;
+            rt.block_on(async move {
+                let l = tokio::net::TcpListener::from_std(listener).ok()?;
+                let (s, _) = tokio::time::timeout(IO_TIMEOUT, l.accept()).await.ok()?.ok()?;
+                let mut a = base_opts(&sc2).strict(false).establish_async(s).await.ok()?;
+                let peer = a.requestor_max_pdu_length();
+                let mut res = vec![];
+                for p in &pd_s { res.push((encoded_len(p), AsyncAssociation::send(&mut a, p).await.map_err(|e| err_class(&e)))); }
+                let _ = AsyncAssociation::abort(a).await;
+                Some((peer, res))
+            })
         } else {
-            loop { match a.receive() { Ok(Pdu::PData { .. }) => continue, _ => break } }
-            vec![]
-        };
-        Some((peer, res))
-    });
-    let sizes4 = sizes.clone();
-    let a = cc.opts().establish(paddr).ok();
-    let client: Option<(u32, Vec<(usize, Result<(), u8>)>)> = a.map(|mut a| {
-        let peer = a.acceptor_max_pdu_length();
-        let res = if from_client {
-            let res = if use_pdata_writer {
-                let mut w = a.send_pdata(1);
-                let r1 = w.write_all(&vec![7u8; sizes4[0]]).and_then(|_| w.finish());
-                vec![(sizes4[0], r1.map_err(|_| 50u8))]
+            let (stream, _) = listener.accept().ok()?;
+            let mut a = base_opts(&sc2).strict(false).establish(stream).ok()?;
+            let peer = a.requestor_max_pdu_length();
+            let res = if !from_client {
+                let res = if use_pdata_writer {
+                    let mut w = a.send_pdata(1);
+                    let r1 = w.write_all(&vec![7u8; writer_len]).and_then(|_| w.finish());
+                    vec![(writer_len, r1.map_err(|_| 50u8))]
+                } else { pd_s.iter().map(|p| (encoded_len(p), a.send(p).map_err(|e| err_class(&e)))).collect() };
+                let _ = a.abort();
+                res
             } else {
-                sizes4.iter().map(|n| { let p = pdata(*n); (encoded_len(&p), a.send(&p).map_err(|e| err_class(&e))) }).collect()
+                loop { match a.receive() { Ok(Pdu::PData { .. }) => continue, _ => break } }
+                vec![]
             };
-            let _ = a.abort();
-            res
-        } else {
-            loop { match a.receive() { Ok(Pdu::PData { .. }) => continue, _ => break } }
-            vec![]
-        };
-        (peer, res)
+            Some((peer, res))
+        }
     });
+    let client: Option<(u32, SendLog)> = if async_sender && from_client {
+        (|| {
+            let rt = tokio::runtime::Builder::new_current_thread().enable_all().build().ok()?;
+            rt.block_on(async {
+                let mut a = cc.opts().establish_async(paddr).await.ok()?;
+                let peer = a.acceptor_max_pdu_length();
+                let mut res = vec![];
+                for p in &pd_c { res.push((encoded_len(p), a.send(p).await.map_err(|e| err_class(&e)))); }
+                let _ = a.abort().await;
+                Some((peer, res))
+            })
+        })()
+    } else {
+        cc.opts().establish(paddr).ok().map(|mut a| {
+            let peer = a.acceptor_max_pdu_length();
+            let res = if from_client {
+                let res = if use_pdata_writer {
+                    let mut w = a.send_pdata(1);
+                    let r1 = w.write_all(&vec![7u8; writer_len]).and_then(|_| w.finish());
+                    vec![(writer_len, r1.map_err(|_| 50u8))]
+                } else { pd_c.iter().map(|p| (encoded_len(p), a.send(p).map_err(|e| err_class(&e)))).collect() };
+                let _ = a.abort();
+                res
+            } else {
+                loop { match a.receive() { Ok(Pdu::PData { .. }) => continue, _ => break } }
+                vec![]
+            };
+            (peer, res)
+        })
+    };
     let server = server.join().ok()?;
     let log = px.finish();
     let (server, client) = (server?, client?);
@@ -295,28 +348,30 @@ fn case_send(r: &mut Rng, cmax: u32, smax: u32, from_client: bool, use_pdata_wri
     // oracle: nothing longer than the receiving side's maximum on the wire; over-long sends rejected locally
     let mut oracle = Oracle::Holds;
     if peer_seen as i64 != peer_max { oracle = fails("max-pdu-views", format!("sender believes the peer's maximum is {peer_seen}, the peer configured {peer_max}")); }
-    if let Some(l) = wire.iter().find(|l| **l as i64 > peer_max) { oracle = fails("over-long-on-wire", format!("P-DATA-TF of length {l} on the wire, receiver's maximum is {peer_max}")); }
     if !use_pdata_writer {
         let ok_lens: Vec<u32> = sends.iter().filter(|(_, r)| r.is_ok()).map(|(l, _)| (*l - 6) as u32).collect();
         if ok_lens != wire { oracle = fails("wire-differs-from-sends", format!("successful sends (length fields) {:?}, on the wire {:?}", ok_lens, wire)); }
-        for (l, res) in &sends {
+        for (i, (l, res)) in sends.iter().enumerate() {
             let too_long = *l as i64 > peer_max + 6;
             match (too_long, res) {
                 (true, Err(8)) | (false, Ok(())) => {}
-                (true, o) => { oracle = fails("over-long-not-rejected", format!("PDU of {l} bytes, peer maximum {peer_max}: send returned {:?}", o)); }
-                (false, o) => { oracle = fails("fitting-send-rejected", format!("PDU of {l} bytes, peer maximum {peer_max}: send returned {:?}", o)); }
+                (true, o) => { oracle = fails("over-long-not-rejected", format!("P-DATA-TF with {} values, {l} bytes encoded, peer maximum {peer_max}: send returned {:?}", shape[i].0, o)); }
+                (false, o) => { oracle = fails("fitting-send-rejected", format!("P-DATA-TF with {} values, {l} bytes encoded, peer maximum {peer_max}: send returned {:?}", shape[i].0, o)); }
             }
         }
     } else {
         let payload: u64 = wire.iter().map(|l| (*l as u64).saturating_sub(6)).sum();
-        if sends[0].1.is_ok() && payload != sizes[0] as u64 { oracle = fails("pdata-writer-payload", format!("wrote {} bytes, {} payload bytes on the wire", sizes[0], payload)); }
+        if sends[0].1.is_ok() && payload != writer_len as u64 { oracle = fails("pdata-writer-payload", format!("wrote {} bytes, {} payload bytes on the wire", writer_len, payload)); }
     }
+    if let Some(l) = wire.iter().find(|l| **l as i64 > peer_max) { oracle = fails("over-long-on-wire", format!("P-DATA-TF of length {l} on the wire, receiver's maximum is {peer_max}")); }
     let coq = if use_pdata_writer { String::new() } else {
         format!("(CSend {} {})", peer_seen, c_list(sends.iter().map(|(l, r)| c_pair(&c_n(*l as u64), &match r { Ok(()) => c_ok("tt"), Err(e) => c_err(*e as u32) }))))
     };
-    let desc = json!({"bucket": if use_pdata_writer { "send:pdata-writer" } else { "send:pdu" }, "from": if from_client { "requestor" } else { "acceptor" },
-        "requestor_max": cmax, "acceptor_max": smax, "sends": sends.iter().map(|(l, r)| json!([l, format!("{:?}", r)])).collect::<Vec<_>>(), "wire_lengths": wire});
-    Some(Case { key: format!("send|{}|{}|{}|{:?}", cmax, smax, from_client, sizes), coq, desc, oracle })
+    let who = format!("{}-{}", if async_sender { "async" } else { "sync" }, if from_client { "requestor" } else { "acceptor" });
+    let desc = json!({"bucket": if use_pdata_writer { "send:pdata-writer".to_string() } else { format!("send:pdu:{who}") }, "from": who,
+        "requestor_max": cmax, "acceptor_max": smax, "values_and_delta": shape,
+        "sends": sends.iter().map(|(l, r)| json!([l, format!("{:?}", r)])).collect::<Vec<_>>(), "wire_lengths": wire});
+    Some(Case { key: format!("send|{}|{}|{}|{:?}|{}", cmax, smax, who, shape, writer_len), coq, desc, oracle })
 }
 
 // ------------------------------------------------------------------ generators
@@ -375,7 +430,7 @@ pub fn cases(ctx: &Ctx) -> Vec<Case> {
     out.extend(case_pair("corpus:max0-tcp", &CCfg { max_pdu: 0, ..none.clone() }, &sc0, Some("THIS-SCP")));
 
     let n_tcp = if thorough { 3000 } else { 70 };
-    let n_send = if thorough { 1500 } else { 40 };
+    let n_send = if thorough { 1500 } else { 64 };
     let n_compose = ctx.n.saturating_sub(out.len() + n_tcp + n_send);
     for i in 0..n_compose {
         // a few requests around the 128-context limit, some medium ones, mostly small ones
@@ -400,7 +455,9 @@ pub fn cases(ctx: &Ctx) -> Vec<Case> {
     for i in 0..n_send {
         let cmax = *r.pick(&[1018u32, 1019, 2048, 4096, 16384, 32762, 65536]);
         let smax = *r.pick(&[1018u32, 1019, 2048, 4096, 16384, 32762, 65536]);
-        out.extend(case_send(&mut r, cmax, smax, i % 2 == 0, i % 5 == 4));
+        // all four send implementations in turn: sync/async x requestor/acceptor; every 9th a PDataWriter transfer
+        let writer = i % 9 == 8;
+        out.extend(case_send(&mut r, cmax, smax, i % 2 == 0, !writer && (i / 2) % 2 == 1, writer));
     }
     out
 }
